@@ -65,7 +65,7 @@ func Run(c *lg.Chunk, lines lg.Lines, args []Value, o Options) (res Result) {
 			case *Unspecified:
 				res.Kind = "unspecified"
 				res.Reason = e.Reason
-			case coClose, coAbort:
+			case coClose, coAbort, coCloseErr:
 				res.Kind = "unspecified"
 				res.Reason = "coroutine unwinding escaped (interpreter bug)"
 			default:
